@@ -121,22 +121,172 @@ def hidden_state(kind_idx, p, d):
 
 
 def after_other(g, f):
-    """f(x) after g(y) equals f(x) alone (g, f chosen by the solver among the conversions)"""
+    """f(x) after g(y) equals f(x) in a fresh interpreter (g, f chosen by the solver among the conversions)"""
     g, f = realize((g, f))
-    kinds = ("rest", "numpydoc", "google", "class", "function", "method", "argparse")
     with untraced():
-        def run(k, sid):
-            ir = mk_ir(sid, p="the a", d=3, s="x", b=True)
-            art = emit_kind(ir, kinds[k])
-            got = parse_kind(art, kinds[k])
-            got.pop("_internal", None)
-            return art if isinstance(art, str) else ast.dump(art), repr(got)
+        _run_kind(g, "p2_both_d")
+        again = _run_kind(f, "p3_mixed")
+        return again == prepared()["kinds"][f]
 
-        alone = subprocess.run  # noqa: F841  (kept: replay uses sub-processes, see replay_hashseed)
-        ref = run(f, "p3_mixed")
-        run(g, "p2_both_d")
-        again = run(f, "p3_mixed")
-        return ref == again
+
+USER_DOCS = [
+    """Train the model.
+
+Args:
+  epochs (int): number of epochs. Defaults to 5
+  verbose (bool): whether to log
+
+Returns:
+  float: the loss
+
+Raises:
+  ValueError: when epochs is negative
+""",
+    """Train the model.
+
+Parameters
+----------
+epochs : int
+    number of epochs
+verbose : bool
+    whether to log
+
+Returns
+-------
+float
+    the loss
+
+Notes
+-----
+Uses the default optimiser.
+""",
+    """Pick a backend.
+
+Args:
+  backend (str): {'np', 'tf'}
+  k (int): the k
+""",
+    """Summary
+
+:param a: the a. Defaults to 5
+:type a: ```int```
+
+:returns: the result
+:rtype: ```int```
+""",
+]
+
+
+FRESH_SCRIPT = r'''
+import sys, json
+sys.path.insert(0, "/verif")
+import lib.prelude
+import harness.C12 as H
+out = {"docs": [], "kinds": []}
+which = sys.argv[1]
+if which.startswith("doc"):
+    from doctrans import parse
+    try:
+        print(json.dumps(repr(parse.docstring(H.USER_DOCS[int(which[3:])]))))
+    except Exception as e:
+        print(json.dumps("EXC " + type(e).__name__))
+else:
+    print(json.dumps(H._run_kind(int(which[4:]), "p3_mixed")))
+'''
+
+
+def prepare(tier):
+    """reference outputs, each computed in a FRESH interpreter (CrossHair re-executes every path in one process, so state that an
+    earlier path left behind - a cache, a function attribute - would otherwise be shared by the reference and the run under test)"""
+    import json as _json
+
+    env = {"PYTHONHASHSEED": "0", "PATH": "/usr/bin:/bin", "PYTHONDONTWRITEBYTECODE": "1"}
+    ref = {"docs": [], "kinds": []}
+    for i in range(len(USER_DOCS)):
+        p = subprocess.run([sys.executable, "-c", FRESH_SCRIPT, "doc%d" % i], capture_output=True, text=True, env=env)
+        ref["docs"].append(_json.loads(p.stdout.strip().splitlines()[-1]))
+    for k in range(7):
+        p = subprocess.run([sys.executable, "-c", FRESH_SCRIPT, "kind%d" % k], capture_output=True, text=True, env=env)
+        ref["kinds"].append(_json.loads(p.stdout.strip().splitlines()[-1]))
+    return ref
+
+
+_PREP = []
+
+
+def prepared():
+    if not _PREP:
+        import json as _json
+        import os
+
+        f = os.environ.get("VERIF_PREPARED")
+        _PREP.append(_json.load(open(f)) if f and os.path.exists(f) else prepare("quick"))
+    return _PREP[0]
+
+
+KINDS7 = ("rest", "numpydoc", "google", "class", "function", "method", "argparse")
+
+
+def _run_kind(k, sid):
+    ir = mk_ir(sid, p="the a", d=3, s="x", b=True)
+    art = emit_kind(ir, KINDS7[k])
+    got = parse_kind(art, KINDS7[k])
+    got.pop("_internal", None)
+    return [art if isinstance(art, str) else ast.dump(art), repr(got)]
+
+
+def repeat_text(i, n, j):
+    """the same source text parsed n times in one process (with another text parsed in between) gives the same description each time"""
+    i, n, j = realize((i, n, j))
+    with untraced():
+        outs = []
+        for r in range(n):
+            try:
+                outs.append(repr(parse.docstring(USER_DOCS[i])))
+            except Exception as e:  # the same text must fail the same way every time, too
+                outs.append("EXC " + type(e).__name__)
+            try:
+                parse.docstring(USER_DOCS[j])
+            except Exception:
+                pass
+        return set(outs) == {prepared()["docs"][i]}  # ... and the same as in a fresh interpreter
+
+
+COLLIDE = [(False, "bool"), (True, "bool"), (0, "int"), (1, "int"), (0.0, "float"), (1.0, "float")]
+
+
+CTABLE = [(e1, e2, a, b) for e1 in range(3) for e2 in range(3) for a in range(6) for b in range(6)]
+
+
+def collide_idx(c):
+    c = realize(c)
+    return collide(*CTABLE[c])
+
+
+def collide(e1, e2, a, b):
+    """two successive emissions in one process with defaults that compare equal but differ in type (False/0/0.0, True/1/1.0):
+    the second artefact carries ITS OWN default, value and type (absolute oracle, so the order of evaluation cannot hide it)"""
+    with untraced():
+
+        def ir(v, t):
+            return {"name": None, "type": "static", "doc": "Summary line", "returns": None,
+                    "params": __import__("collections").OrderedDict([("x", {"typ": t, "doc": "the x", "default": v})])}
+
+        def emit_it(which, v, t):
+            if which == 0:
+                n = emit.function(ir(v, t), function_name="f", function_type="static", emit_as_kwonlyargs=False)
+                return n.args.defaults[0].value
+            if which == 1:
+                n = emit.class_(ir(v, t), class_name="K")
+                return [x for x in n.body if isinstance(x, ast.AnnAssign)][0].value.value
+            n = emit.argparse_function(ir(v, t))
+            call = [x for x in ast.walk(n) if isinstance(x, ast.Call) and getattr(x.func, "attr", "") == "add_argument"][0]
+            return [k.value.value for k in call.keywords if k.arg == "default"][0]
+
+        emit_it(e1, *COLLIDE[a])
+        got = emit_it(e2, *COLLIDE[b])
+        want = COLLIDE[b][0]
+        return type(got) is type(want) and got == want
 
 
 def scan():
@@ -213,9 +363,18 @@ def obligations(tier, seed):
     obs.append(Ob(name="after_other", params=[("g", "int"), ("f", "int")], pre=["0 <= g < 7 and 0 <= f < 7"],
                   body="H.after_other(g, f)", witness=(0, 3), kind="F",
                   bounds="every ordered pair (g, f) of the 7 conversions: f after g equals f alone", timeout=200, funcs=FUNCS))
+    obs.append(Ob(name="repeat_text", params=[("i", "int"), ("n", "int"), ("j", "int")],
+                  pre=["0 <= i < %d and 0 <= j < %d" % (len(USER_DOCS), len(USER_DOCS)), "2 <= n <= 3"], body="H.repeat_text(i, n, j)",
+                  witness=(0, 2, 1), kind="F",
+                  bounds="pool of %d user-written docstrings (Google with sections after Args, numpydoc with Notes, a {..} choice literal, ReST); "
+                  "parsed 2..3 times with any other text in between" % len(USER_DOCS), timeout=150, funcs=FUNCS))
+    obs.append(Ob(name="equal_but_different_defaults", params=[("c", "int")], pre=["0 <= c < %d" % len(CTABLE)],
+                  body="H.collide_idx(c)", witness=(CTABLE.index((0, 0, 0, 4)),), kind="F",
+                  bounds="two successive emissions (function / class / argparse, 9 pairs) with defaults drawn from %r (36 pairs): values that are "
+                  "== and hash-equal but differ in type or sign" % ([c[0] for c in COLLIDE],), timeout=200, funcs=FUNCS))
     obs.append(ZOb(name="set_iteration_scan", run=scan, bounds="AST scan of /repo/doctrans/*.py for iteration over set-valued expressions"))
-    obs.append(ZOb(name="hashseed_sweep", run=lambda: seed_sweep(4 if tier == "quick" else 32),
+    obs.append(ZOb(name="hashseed_sweep", run=lambda: seed_sweep(8 if tier == "quick" else 32),
                    replay=lambda cex: (seed_sweep(8)["status"] == "violated", "re-ran the sweep"),
                    bounds="process-level cross-check: the C07 configuration table converted in sub-processes under PYTHONHASHSEED 0..%d and random"
-                   % (3 if tier == "quick" else 31)))
+                   % (7 if tier == "quick" else 31)))
     return obs
